@@ -27,6 +27,7 @@ def run(chk, tier):
         rules_ptr.coercion_site_is_raw_pointer(chk, prog, config=c)
         rules_ptr.gc_made_only_from_carriers(chk, prog, config=c)
         rules_ptr.thin_prefix_exists(chk, prog, config=c)
+        rules_ptr.trusted_traits_are_unsafe(chk, prog, config=c)
         # the unsafe raw constructors / casts / cache allocation stay out of reach of safe code only if no exported
         # macro evaluates a caller-supplied expression inside an `unsafe` block (seed C19-c: unsize!)
         from gcv.props import common
